@@ -1,0 +1,30 @@
+//go:build verif
+
+package httpd
+
+import "github.com/gorilla/mux"
+
+// VerifRoute is one entry of the live route table.
+type VerifRoute struct {
+	Pattern string
+	Methods []string
+}
+
+// VerifRoutes returns the routes registered on the handler's router (pattern and methods),
+// taken from the router itself. It exists only in builds with the "verif" tag: the verification
+// harness enumerates the endpoints from the running code rather than from a copied list.
+// The prefixes ServeHTTP dispatches outside the router (/debug/pprof, /debug/vars, /debug/query)
+// are not part of the router and are not listed.
+func (h *Handler) VerifRoutes() []VerifRoute {
+	var out []VerifRoute
+	_ = h.mux.Walk(func(route *mux.Route, router *mux.Router, ancestors []*mux.Route) error {
+		p, err := route.GetPathTemplate()
+		if err != nil {
+			return nil
+		}
+		m, _ := route.GetMethods()
+		out = append(out, VerifRoute{Pattern: p, Methods: m})
+		return nil
+	})
+	return out
+}
